@@ -153,6 +153,13 @@ theorem C03_url_format (σ σ' : Text → Option Text)
         simp only [fillBraces, hc, hc2, if_false, Bool.false_eq_true]
         rw [heq]
 
+/-- in particular the rewrite returns on every well-formed template (the obligation `OpOk.path` of
+`makeRequestFile_total`) -/
+theorem fixPlaceholders_total (n : Nat) (path : Text) (h1 : path.length < n) (h2 : templateOk n path = true) :
+    ∃ f, fixPlaceholders n path = .ok f := by
+  obtain ⟨f, hf, _⟩ := C03_url_format (fun _ => none) (fun _ => none) (fun _ _ _ => rfl) n path h1 h2
+  exact ⟨f, hf⟩
+
 /-- the format string of a request file is `fixPlaceholders` of the operation's path -/
 theorem C03_url_is_fixed_path (op : Operation) (fmt : Text) (args : List (Text × Text))
     (h : makeUrl op = .ok (.format fmt args)) : fixPlaceholders (op.path.length + 1) op.path = .ok fmt := by
